@@ -77,8 +77,14 @@ package runtime
 //@   ensures[partial] result.AllowPartial
 
 //@ func UnmarshalInputToOptions
-//@   property C14, C03
+//@   property C14
 //@   mode bv
 //@   ensures[discard] result.DiscardUnknown <==> input.Flags & protoiface.UnmarshalDiscardUnknown != 0
 //@   ensures[partial] result.AllowPartial
+//@   ensures[resolver] result.Resolver == input.Resolver
+
+//@ func UnmarshalInputToOptions#merge
+//@   property C03
+//@   mode bv
+//@   note nested decodes must merge into an existing sub-message (repeated occurrences of a singular message field merge)
 //@   ensures[merge] result.Merge
